@@ -101,6 +101,16 @@ fn do_get(disk: &mut Box<dyn DiskFS>,path: &str) -> Result<Got,String> {
     Ok(Got { chunks, eof, ftype: f.fs_type.clone(), aux: f.aux.clone(), access: f.access.clone() })
 }
 
+/// units a dense file of n chunks consumes in the root directory (data + index overhead), per the format documents
+pub fn needs_dense(fs: &str,n: usize) -> Option<usize> {
+    if n==0 { return Some(0); }
+    match fs {
+        "dos33" | "dos32" => Some(n + 1 + (n-1)/122),
+        "prodos" => Some(n + (if n>1 {1} else {0}) + (if n>256 {1 + (n-1)/256} else {0})),
+        "pascal" | "cpm2" | "cpm3" | "fat" => Some(n),
+        _ => None
+    }
+}
 fn le_bytes(val: usize,len: usize) -> Vec<u8> { (0..len).map(|i| ((val >> (8*i)) & 0xff) as u8).collect() }
 
 pub struct Runner { pub fs: String, pub label: String, pub disk: Box<dyn DiskFS>, pub shadow: BTreeMap<String,Shadow>, pub next_id: usize, pub unit: usize,
@@ -179,7 +189,7 @@ impl Runner {
         Ok(g)
     }
 
-    pub fn put(&mut self,path: &str,idx: &Vec<usize>,eof_in_last: usize,ftype: Option<usize>,aux: Option<usize>) -> (String,Option<String>) {
+    pub fn put(&mut self,path: &str,idx: &Vec<usize>,eof_in_last: usize,ftype: Option<usize>,aux: Option<usize>,vouched: bool,free_before: usize) -> (String,Option<String>) {
         // eof_in_last: bytes used in the chunk `end-1` (1..=unit); the last chunk present holds that many bytes if it is the end chunk
         let id = self.next_id; self.next_id += 1;
         let mut f: FileImage = match self.disk.new_fimg(None,false,path) { Ok(f) => f, Err(_) => return ("ref".to_string(),None) };
@@ -210,7 +220,26 @@ impl Runner {
                     Err(e) => ("ok".to_string(),Some(e))
                 }
             },
-            Err(_) => ("ref".to_string(),None)
+            Err(e) => {
+                // C04: a dense file whose requirement (with index overhead) fits the reported free space, under a valid new name in an
+                // existing directory with room, must be accepted
+                if vouched && !existed && !idx.is_empty() && idx.len()==end {
+                    let n = idx.len();
+                    let needs = match self.fs.as_str() {
+                        "dos33" | "dos32" => Some(n + 1 + (n-1)/122),
+                        "prodos" => Some(n + (if n>1 {1} else {0}) + (if n>256 {1 + (n-1)/256} else {0}) + (if key.contains('/') {1} else {0})),
+                        "cpm2" | "cpm3" => Some(n),
+                        "fat" => Some(n + (if key.contains('/') {1} else {0})),
+                        _ => None
+                    };
+                    let parent_ok = match key.rfind('/') { Some(i) if !self.fs.starts_with("cpm") => self.shadow.get(&key[..i]).map(|d| d.is_dir).unwrap_or(false), _ => true };
+                    let siblings = self.shadow.len();
+                    if let Some(nd) = needs { if nd<=free_before && parent_ok && siblings<30 {
+                        return ("ref".to_string(),Some(format!("C04 put of {} refused ({}) although it needs {} units and {} are reported free",key,e,nd,free_before)));
+                    } }
+                }
+                ("ref".to_string(),None)
+            }
         }
     }
 }
@@ -220,6 +249,7 @@ fn trace_line(r: &mut Runner,res: &str) -> String {
     let free = r.free().map(|f| f.to_string()).unwrap_or("?".to_string());
     let mut items: Vec<String> = Vec::new();
     for (p,sh) in r.shadow.iter() {
+        let p = &p.replace(' ',"_");
         if sh.is_dir { items.push(format!("{}/",p)); }
         else {
             let idx: Vec<usize> = match &sh.got { Some(g) => g.chunks.keys().cloned().collect(), None => vec![] };
@@ -242,6 +272,7 @@ pub fn run(toks: &[&str]) -> String {
     r.unit = match r.disk.new_fimg(None,false,if fs.starts_with("cpm") {"A.B"} else {"A"}) { Ok(f) => f.chunk_len, Err(_) => 512 };
     let do_fsck = opts.contains('k');
     let do_reload = opts.contains('r');
+    let init_rec = crate::fsckrun::init_record(fs,label,&mut r.disk);
     let t0 = trace_line(&mut r,"init");
     r.trace.push(t0);
     let mut fail: Option<String> = None;
@@ -259,7 +290,28 @@ pub fn run(toks: &[&str]) -> String {
                     let ty = if f.len()>4 && !f[4].is_empty() { Some(f[4].parse().unwrap()) } else { None };
                     let aux = if f.len()>5 && !f[5].is_empty() { Some(f[5].parse().unwrap()) } else { None };
                     touched = Some(norm_path(fs,path));
-                    r.put(path,&idx,eil,ty,aux)
+                    let vouched = f.len()>6 && f[6]=="v";
+                    r.put(path,&idx,eil,ty,aux,vouched,free_before)
+                },
+                "Z" => {
+                    // fill the volume with filler files until exactly k units are reported free
+                    let k: usize = f[1].parse().unwrap();
+                    let mut i = 0;
+                    loop {
+                        let cur = r.free().unwrap_or(0);
+                        if cur<=k || i>40 { break; }
+                        let c = cur-k;
+                        let mut n = c;
+                        while n>0 && needs_dense(fs,n).unwrap_or(n)>c { n -= 1; }
+                        if n==0 { break; }
+                        let name = if fs.starts_with("cpm") || fs=="fat" { format!("ZF{}.Z",i) } else { format!("ZF{}",i) };
+                        let idx: Vec<usize> = (0..n).collect();
+                        let (res,orc) = r.put(&name,&idx,r.unit,None,None,false,cur);
+                        if orc.is_some() { return (res,orc); }
+                        if res!="ok" { break; }
+                        i += 1;
+                    }
+                    ("ok".to_string(),None)
                 },
                 "D" => {
                     let key = norm_path(fs,f[1]); touched = Some(key.clone());
@@ -397,5 +449,5 @@ pub fn run(toks: &[&str]) -> String {
     let mut stats: Vec<String> = r.stats.iter().map(|(k,v)| format!("{}={}",k,v)).collect();
     stats.sort();
     let head = match fail { Some(e) => format!("FAIL {}",e), None => format!("ok {}",stats.join(",")) };
-    format!("{} ;; {} ;; {}",head,r.trace.join(" "),r.notes.join("|"))
+    format!("{} ;; {} ;; {} ;; {}",head,r.trace.join(" "),r.notes.join("|"),init_rec)
 }
